@@ -421,5 +421,9 @@ func init() {
 	plans["C10"] = append(plans["C10"], "full-traffic")
 	// C03 end to end: a proxied connection's bytes all arrive before its end
 	plans["C03"] = append(plans["C03"], "full-traffic")
+	// C03 under faults ("once a side has closed the stream its blocked reads
+	// return", whatever happens to the closing frame on its way out): the random
+	// fault family of C12 closes streams under blocked readers while connections fail
+	plans["C03"] = append(plans["C03"], "c12-random")
 	plans["C12"] = append(plans["C12"], "full-faults")
 }
